@@ -343,7 +343,10 @@ impl<
     pub(crate) fn verif_entries(&self) -> Vec<crate::verif::Entry<V>> {
         let mut v = Vec::new();
         for shard in self.shards.iter() {
-            let data = shard.read();
+            // the observer must not hang on a shard lock that the code under test never releases
+            let data = shard
+                .try_read_for(std::time::Duration::from_secs(3))
+                .expect("verif: a shard lock was not released within 3 s");
             for (k, item) in data.iter() {
                 let (d, at) = item.expiration.verif_parts();
                 v.push(crate::verif::Entry {
